@@ -244,6 +244,36 @@ func (x *env) memtable() {
 	}
 	x.cmp("topen", fmt.Sprintf("ok %d %d %d", count, expUnc, len(file)), x.m.Ask("topen "+hx.Hex(tail(file, int(count)))))
 	x.cmp("entries", realEntries(src), x.m.Ask("entries"))
+	// Lean writer vs real writer, byte for byte, when no two written chunks share a prefix (no tie order)
+	{
+		var order []hash.Hash
+		seenO := map[hash.Hash]bool{}
+		pfx := map[uint64]int{}
+		for _, h := range hs {
+			if !seenO[h] && !inHaver[h] {
+				seenO[h] = true
+				order = append(order, h)
+				pfx[h.Prefix()]++
+			}
+		}
+		ties := false
+		for _, n := range pfx {
+			if n > 1 {
+				ties = true
+			}
+		}
+		if !ties && len(order) > 0 {
+			p := make([]string, len(order))
+			for i, h := range order {
+				rl := len(nbs.ChunkToCompressedChunk(chunks.NewChunkWithHash(h, expect[h])).FullCompressedChunk)
+				p[i] = fmt.Sprintf("%s:%d", nbsx.AddrHex(h), rl)
+			}
+			resp := x.m.Ask(fmt.Sprintf("tbuild %d %s", expUnc, strings.Join(p, ",")))
+			x.cmp("tbuild-bytes", "ok "+hx.Hex(tail(file, int(count))), resp)
+			x.e.Rep.Hit("memtable:index-bytes-compared")
+			x.m.Ask("topen " + hx.Hex(tail(file, int(count)))) // restore the parsed state
+		}
+	}
 	x.verify("memtable-file", src, expect, len(expect), false)
 }
 
